@@ -98,6 +98,21 @@ def gen_cases(rng, tier):
         for ents in exhaustive_core(shape, maxent):
             cases.append({'kind': 'get', 'obj': G.gen_object(rng, shape, nderiv=rng.choice([0, 0, 0, 1])),
                           'index': ents, 'src': 'core'})
+    # shapeless objects: every mask state of the object and of its derivative x every index of up to two entries
+    # made of True / False / a masked Boolean / None / Ellipsis / a full slice (plus one entry that is not allowed)
+    sl_pool = [{'k': 'bool', 'v': True, 'm': False}, {'k': 'bool', 'v': False, 'm': False},
+               {'k': 'bool', 'v': True, 'm': True, 'obj': True}, {'k': 'bool', 'v': True, 'm': False, 'obj': True},
+               {'k': 'none'}, {'k': 'ell'}, {'k': 'slice', 'a': None, 'b': None, 'c': None}, {'k': 'int', 'v': 0, 'm': False}]
+    sl_idx = [[e] for e in sl_pool] + [[a, b] for a in sl_pool for b in sl_pool]
+    for om in ('F', 'T'):
+        for dm in ('F', 'T', None):
+            for ents in sl_idx:
+                o = G.gen_object(rng, (), nderiv=0 if dm is None else 1)
+                o['mrep'], o['mask'] = om, [om == 'T']
+                for k in o['derivs']:
+                    o['derivs'][k]['mrep'], o['derivs'][k]['mask'] = dm, [dm == 'T']
+                    o['derivs'][k].pop('bcast', None)
+                cases.append({'kind': 'get', 'obj': o, 'index': [dict(e) for e in ents], 'src': 'core'})
     for what in G.HIST_FLOATS:          # float index objects that descend from an integer one: always rejected
         for shape in ((4,), (2, 3)):
             cases.append({'kind': 'get', 'obj': G.gen_object(rng, shape), 'index': [{'k': 'bad', 'what': what}], 'src': 'core'})
